@@ -401,7 +401,84 @@ func bvGenV2Multi(r *Rng) *bvShape {
 		j := r.Intn(i + 1)
 		sh.Parties[i], sh.Parties[j] = sh.Parties[j], sh.Parties[i]
 	}
+	bvAddRetry(r, sh, 45)
 	return sh
+}
+
+// the last party first calls BlindLast with only some of its outputs (refused: outputs would remain
+// unblinded with the scalars gone), then calls it again, correctly, on the same in-memory packet
+func bvAddRetry(r *Rng, sh *bvShape, pct int) {
+	n := len(sh.Parties)
+	if n < 2 || !r.Chance(pct) {
+		return
+	}
+	lp := &sh.Parties[n-1]
+	if len(lp.Outs) < 2 {
+		// give the last party the role of the one with two outputs if there is one
+		for k := 0; k < n-1; k++ {
+			if len(sh.Parties[k].Outs) >= 2 {
+				sh.Parties[k], sh.Parties[n-1] = sh.Parties[n-1], sh.Parties[k]
+				break
+			}
+		}
+		lp = &sh.Parties[n-1]
+	}
+	if len(lp.Outs) < 2 {
+		return
+	}
+	k := 1 + r.Intn(len(lp.Outs)-1)
+	lp.Fail = append([]uint32{}, lp.Outs[:k]...)
+}
+
+// history on one generator object: two or three single-party packets, each spending other
+// confidential coins at the same input indexes
+func bvGenHistStep(r *Rng) *bvShape {
+	nIn := 1 + r.Intn(3)
+	sh := bvGenCommon(r, nIn, 3, false, false)
+	sh.Spec = 0
+	sh.Ins[0].Conf = true
+	pa := bvParty{Ctor: 1}
+	for i := range sh.Ins {
+		pa.Own = append(pa.Own, uint32(i))
+	}
+	for j := range sh.Outs {
+		if sh.Outs[j].Blind {
+			sh.Outs[j].BlinderIdx = 0
+			pa.Outs = append(pa.Outs, uint32(j))
+		}
+	}
+	sh.Parties = []bvParty{pa}
+	return sh
+}
+
+func bvHistLine(shapes []*bvShape) string {
+	gen := bvSharedGen(shapes)
+	var parts []string
+	for _, sh := range shapes {
+		w := bvBuildWorld(sh, true, false)
+		res := bvRunV2With(w, gen)
+		var b sb
+		sh.write(&b, false)
+		for _, wi := range w.ins {
+			b.add(hx(wi.abf))
+			b.add(hx(wi.vbf))
+		}
+		b.add("|")
+		res.writeObs(&b)
+		parts = append(parts, strings.TrimSpace(b.String()))
+	}
+	return "bvh " + strings.Join(parts, " ;; ")
+}
+
+func genBVH(r *Rng, n int, w *bufio.Writer) {
+	hists := make([][]*bvShape, n)
+	for i := range hists {
+		k := r.Pick(2, 2, 3)
+		for j := 0; j < k; j++ {
+			hists[i] = append(hists[i], bvGenHistStep(r))
+		}
+	}
+	bvGenParallel(n, func(i int) string { return bvHistLine(hists[i]) }, w)
 }
 
 func bvGenV2Shape(r *Rng) *bvShape {
@@ -548,6 +625,7 @@ func bvGenV2Shape(r *Rng) *bvShape {
 			}
 		}
 	}
+	bvAddRetry(r, sh, 20)
 	// a few deliberately wrong requests (guards of validate / validateBlindingArgs)
 	if r.Chance(6) {
 		k := r.Intn(nPar)
